@@ -2,7 +2,7 @@
     then the trace carries a [NAuth] note.  With [a_auth] of the abstract machine (Spec/SessionSpec.v)
     following the notes, "authenticated" in the server state and in the specification stay in step
     over every round of the command loop. *)
-From Qv Require Import Common.Bytes Gen.GenNetio Gen.GenSession Model.NetRead Model.Session Spec.SessionSpec.
+From Qv Require Import Common.Bytes Gen.GenNetio Gen.GenSession Model.NetRead Model.Session Spec.SessionSpec Proofs.RelayDecide.
 From Coq Require Import Lia.
 
 Definition is_auth_ev (e : event) : bool := match e with Note (NAuth (_ :: _)) => true | _ => false end.
@@ -28,6 +28,12 @@ Proof.
   congruence.
 Qed.
 
+(** the note of an accepted client certificate (tls_verify() returned 1) *)
+Definition is_cert_ev (e : event) : bool := match e with Note (NCert _) => true | _ => false end.
+Definition has_cert (evs : list event) : bool := existsb is_cert_ev evs.
+Lemma has_cert_app a b : has_cert (a ++ b) = has_cert a || has_cert b.
+Proof. apply existsb_app. Qed.
+
 Section Auth.
 Variable o : oracles.
 
@@ -51,6 +57,28 @@ Proof.
   - inversion H; subst. cbn. now rewrite orb_false_r.
   - destruct (trace_step o e a) as [a1|] eqn:E; [|discriminate].
     rewrite (IH _ _ H), (trace_step_auth _ _ _ E). cbn [has_auth existsb]. now rewrite orb_assoc.
+Qed.
+
+(** the same for the certificate flag *)
+Lemma trace_step_cert e a a' : trace_step o e a = Some a' -> a_cert a' = a_cert a || is_cert_ev e.
+Proof.
+  unfold trace_step. intros H.
+  destruct e as [c|env msg| | |n]; try (inversion H; subst; rewrite orb_false_r; reflexivity).
+  - destruct (a_txn a); [destruct (bytes_eqb _ _)|]; inversion H; subst. now rewrite orb_false_r.
+  - destruct n;
+      repeat (match type of H with
+              | context [match ?x with _ => _ end] => destruct x eqn:?
+              | context [if ?x then _ else _] => destruct x eqn:?
+              end; try discriminate);
+      inversion H; subst; cbn [a_cert is_cert_ev]; rewrite ?orb_false_r, ?orb_true_r; reflexivity.
+Qed.
+
+Lemma trace_run_cert evs : forall a a', trace_run o evs a = Some a' -> a_cert a' = a_cert a || has_cert evs.
+Proof.
+  induction evs as [|e r IH]; intros a a' H; cbn [trace_run] in H.
+  - inversion H; subst. cbn. now rewrite orb_false_r.
+  - destruct (trace_step o e a) as [a1|] eqn:E; [|discriminate].
+    rewrite (IH _ _ H), (trace_step_cert _ _ _ E). cbn [has_cert existsb]. now rewrite orb_assoc.
 Qed.
 
 (** F2: the server side *)
@@ -83,13 +111,17 @@ Proof.
     try reflexivity; cbn [has_note existsb is_auth_note orb]; apply (wait_for_quit_auth f (set_rd sd r')).
 Qed.
 
-Lemma relay_decide_auth s cls al s1 pre : relay_decide o s cls = (al, s1, pre) ->
-  authname s1 = authname s /\ (pre = [] \/ pre = [Reply 421]).
+Lemma pre_ok_note pre : pre_ok pre -> has_note pre = false.
 Proof.
-  unfold relay_decide. destruct cls.
-  - intros H; inversion H; subst. auto.
-  - destruct (authed s); [intros H; inversion H; subst; auto|].
-    destruct (N.eqb (relayclient s) 0); [destruct (Z.ltb (o_relay o) 0)|]; intros H; inversion H; subst; auto.
+  unfold pre_ok, has_note. induction pre as [|e r IH]; [reflexivity|]. cbn [forallb existsb]. intros H.
+  apply andb_true_iff in H as [He Hr]. rewrite (IH Hr), orb_false_r.
+  destruct e as [c|x y| | |n]; try reflexivity; try discriminate. destruct n; try discriminate; reflexivity.
+Qed.
+
+Lemma relay_decide_auth s cls res s1 pre : relay_decide o s cls = (res, s1, pre) ->
+  authname s1 = authname s /\ has_note pre = false.
+Proof.
+  intros H. destruct (relay_decide_core _ _ _ _ _ _ H) as (Hc & Hp). split; [apply Hc|exact (pre_ok_note _ Hp)].
 Qed.
 
 Lemma h_rcpt_auth s arg evs h s' : h_rcpt o s arg = (evs, h, s') -> has_note evs = false /\ authname s' = authname s.
@@ -97,19 +129,18 @@ Proof.
   unfold h_rcpt. intros H.
   destruct (o_addr o true arg) as [| | |addr more cls];
     try (destruct (Nat.leb MAXRCPT (rcptcount s))); try (inversion H; subst; (split; [reflexivity|]); rewrite ?an_tarpit; reflexivity).
-  destruct (relay_decide o s cls) as [[al s1] pre] eqn:Er.
-  destruct (relay_decide_auth _ _ _ _ _ Er) as (Hb & Hpre).
-  destruct pre as [|p pre'].
-  2:{ inversion H; subst. destruct Hpre as [E|E]; [discriminate|]. inversion E; subst. split; [reflexivity|exact Hb]. }
+  destruct (relay_decide o s cls) as [[res s1] pre] eqn:Er.
+  destruct (relay_decide_auth _ _ _ _ _ Er) as (Hb & Hn).
+  destruct res as [al|h0]; [|inversion H; subst; split; [exact Hn|exact Hb]].
   repeat (match type of H with
           | context [match ?x with _ => _ end] => destruct x eqn:?
           | context [if ?x then _ else _] => destruct x eqn:?
           end; try discriminate);
-    inversion H; subst; (split; [reflexivity|]); rewrite ?an_tarpit; cbn [authname]; exact Hb.
+    inversion H; subst; (split; [rewrite ?has_note_app, ?Hn; reflexivity|]); rewrite ?an_tarpit; cbn [authname]; exact Hb.
 Qed.
 
-Lemma subm_gate_auth s al s1 pre : subm_gate o s = (al, s1, pre) ->
-  authname s1 = authname s /\ (pre = [] \/ pre = [Reply 421]).
+Lemma subm_gate_auth s res s1 pre : subm_gate o s = (res, s1, pre) ->
+  authname s1 = authname s /\ has_note pre = false.
 Proof.
   unfold subm_gate. destruct (o_submission o); [apply relay_decide_auth|]. intros H; inversion H; subst. auto.
 Qed.
@@ -119,15 +150,14 @@ Proof.
   unfold h_from. intros H.
   destruct (o_addr o false arg) as [| | |addr more cls]; [inversion H; subst; split; reflexivity| | |];
     (match type of H with context [subm_gate o ?sc] =>
-       destruct (subm_gate o sc) as [[al s1] pre] eqn:Eg; destruct (subm_gate_auth _ _ _ _ Eg) as (Hb & Hpre) end);
+       destruct (subm_gate o sc) as [[res s1] pre] eqn:Eg; destruct (subm_gate_auth _ _ _ _ Eg) as (Hb & Hn) end);
     cbn [authname] in Hb;
-    (destruct pre as [|p pre'];
-     [|inversion H; subst; destruct Hpre as [E|E]; [discriminate|]; inversion E; subst; split; [reflexivity|exact Hb]]);
+    (destruct res as [al|h0]; [|inversion H; subst; split; [exact Hn|exact Hb]]);
     repeat (match type of H with
             | context [match ?x with _ => _ end] => destruct x eqn:?
             | context [if ?x then _ else _] => destruct x eqn:?
             end; try discriminate);
-    inversion H; subst; (split; [reflexivity|]); rewrite ?an_tarpit; cbn [authname]; exact Hb.
+    inversion H; subst; (split; [rewrite ?has_note_app, ?Hn; reflexivity|]); rewrite ?an_tarpit; cbn [authname]; exact Hb.
 Qed.
 
 Lemma h_data_auth f s evs h s' : h_data f o s = (evs, h, s') -> has_note evs = false /\ authname s' = authname s.
@@ -190,7 +220,7 @@ Proof.
   - destruct (h_data f o s) as [[e h'] s'] eqn:Eh.
     destruct (h_data_auth _ _ _ _ _ Eh) as (Hn & Hb).
     destruct h'; inversion H; subst; apply K; auto.
-  - inversion H; subst. apply K0; reflexivity.
+  - destruct (negb (esmtp s)); inversion H; subst; apply K0; reflexivity.
   - (* smtp_auth *)
     destruct (authed s || negb (o_authperm o)) eqn:Eg.
     { inversion H; subst. apply K0; reflexivity. }
@@ -256,7 +286,7 @@ Proof.
   - destruct (h_data f o s) as [[e h'] s'] eqn:Eh.
     destruct (h_data_auth _ _ _ _ _ Eh) as (Hn & Hb).
     destruct h'; inversion H; subst; apply K; auto.
-  - inversion H; subst. apply K; reflexivity.
+  - destruct (negb (esmtp s)); inversion H; subst; apply K; reflexivity.
   - destruct (authed s || negb (o_authperm o)) eqn:Eg.
     { inversion H; subst. apply K; reflexivity. }
     apply orb_false_iff in Eg as [_ Ep]. apply negb_false_iff in Ep.
